@@ -31,15 +31,15 @@ def build(h, variant, site1, site2):
         h.call(h.getattr(n1, 'add_component'), name='gpu1', model_type=CMT('GPU_Tesla_T4'))
     ns = None
     if variant in ('bridge', 'gpu+bridge'):
-        i1 = h.getattr(c1, 'interface_list')[0]
-        i2 = h.getattr(c2, 'interface_list')[0]
+        i1 = topo.iface(h, c1, 'nic1-p1')
+        i2 = topo.iface(h, c2, 'nic2-p1')
         ns = h.call(h.getattr(t, 'add_network_service'), name='br1', nstype=ServiceType.L2STS, interfaces=PList([i1, i2])
                     if h.mode == 'sym' else [i1, i2])
     return t, n1, n2, c1, c2, ns
 
 
 def iface_names(h, element):
-    return sorted(str(h.getattr(i, 'name')) for i in h.getattr(element, 'interface_list'))
+    return sorted(str(h.getattr(i, 'name')) for i in topo.pylist(h.getattr(element, 'interface_list')))
 
 
 def make(opname, run, expected, variants=('plain', 'bridge', 'gpu+bridge'), handle_check=None):
@@ -135,7 +135,7 @@ RemoveComponent = make('RemoveComponent', lambda h, t, n1, n2, c1, c2, ns: h.cal
 RemoveService = make('RemoveService', lambda h, t, n1, n2, c1, c2, ns: h.call(h.getattr(t, 'remove_network_service'), 'br1'),
                      exp_remove_service, variants=('bridge', 'gpu+bridge'))
 DisconnectInterface = make('DisconnectInterface',
-                           lambda h, t, n1, n2, c1, c2, ns: h.call(h.getattr(ns, 'disconnect_interface'), h.getattr(c1, 'interface_list')[0]),
+                           lambda h, t, n1, n2, c1, c2, ns: h.call(h.getattr(ns, 'disconnect_interface'), topo.iface(h, c1, 'nic1-p1')),
                            exp_disconnect, variants=('bridge',), handle_check=fresh_service_ifaces)
 
 CONTRACTS = [RemoveNode, RemoveComponent, RemoveService, DisconnectInterface]
@@ -164,14 +164,14 @@ class RemoveChildInterface(Contract):
         t = h.call(ExperimentTopology)
         n1 = h.call(h.getattr(t, 'add_node'), name='n1', site=site1)
         c1 = h.call(h.getattr(n1, 'add_component'), name='nic1', model_type=CMT('SmartNIC_ConnectX_6'))
-        port = h.getattr(c1, 'interface_list')[0]
+        port = topo.iface(h, c1, 'nic1-p1')
         h.call(h.getattr(port, 'add_child_interface'), name='sub1', labels=h.call(Labels, vlan='100'))
         if shape == 'two sub-interfaces':
             h.call(h.getattr(port, 'add_child_interface'), name='sub2', labels=h.call(Labels, vlan='200'))
         S0 = take(h, t)
         h.call(h.getattr(port, 'remove_child_interface'), name='sub1')
         S1 = take(h, t)
-        fresh_port = h.getattr(h.call(h.getattr(h.getattr(n1, 'components'), '__getitem__'), 'nic1'), 'interface_list')[0]
+        fresh_port = topo.iface(h, h.call(h.getattr(h.getattr(n1, 'components'), '__getitem__'), 'nic1'), 'nic1-p1')
         return (S0, S1, iface_names(h, port) == iface_names(h, fresh_port))
 
     ensures = {
@@ -202,7 +202,7 @@ class Unpeer(Contract):
         if shape != 'bare services':
             n1 = h.call(h.getattr(t, 'add_node'), name='n1', site=site1)
             c1 = h.call(h.getattr(n1, 'add_component'), name='nic1', model_type=CMT('SharedNIC_ConnectX_6'))
-            ifs = [h.getattr(c1, 'interface_list')[0]]
+            ifs = [topo.iface(h, c1, 'nic1-p1')]
         a = h.call(h.getattr(t, 'add_network_service'), name='nsA', nstype=ServiceType.L3VPN,
                    interfaces=PList(ifs) if h.mode == 'sym' else ifs)
         b = h.call(h.getattr(t, 'add_network_service'), name='nsB', nstype=ServiceType.L3VPN,
